@@ -620,7 +620,7 @@ def part_a(ctx):
         c, _ = enum_token_strings(ctx, bulk, n, procs=(procs if n >= 4 else 1))
         total += c
     k = ctx.seed % len(TOKEN_ALPHABET)
-    shard = [TOKEN_ALPHABET[k]] if not thorough else [TOKEN_ALPHABET[(k + i) % len(TOKEN_ALPHABET)] for i in range(3)]
+    shard = [TOKEN_ALPHABET[k]]
     if thorough:
         c, _ = enum_token_strings(ctx, bulk, top + 1, sample=shard, procs=procs)
         total += c
